@@ -37,6 +37,32 @@ impl Elem for [f32; 2] {
     }
 }
 
+/// an iterator that reports a chosen (legal) size_hint: exact, loose upper bound, or unknown
+pub struct Hinted<I> {
+    it: I,
+    left: usize,
+    flavour: usize,
+}
+impl<I: Iterator> Hinted<I> {
+    pub fn new(it: I, len: usize, flavour: usize) -> Self {
+        Hinted { it, left: len, flavour: flavour % 3 }
+    }
+}
+impl<I: Iterator> Iterator for Hinted<I> {
+    type Item = I::Item;
+    fn next(&mut self) -> Option<I::Item> {
+        self.left = self.left.saturating_sub(1);
+        self.it.next()
+    }
+    fn size_hint(&self) -> (usize, Option<usize>) {
+        match self.flavour {
+            0 => (self.left, Some(self.left)),
+            1 => (0, Some(3 * self.left + 7)),
+            _ => (0, None),
+        }
+    }
+}
+
 #[derive(Clone, Copy, Debug, PartialEq, Eq, Serialize, Deserialize)]
 pub enum Storage {
     /// `&mut [T]` carved out of a canary-filled allocation (guard zones)
@@ -298,7 +324,8 @@ where
             for &v in &vals {
                 m.push(v);
             }
-            rb.extend(vals.iter().map(|&v| T::mk(v)));
+            // the value of n also selects the iterator's size_hint flavour (exact / loose upper bound / unknown)
+            rb.extend(Hinted::new(vals.iter().map(|&v| T::mk(v)), vals.len(), *n / 2));
         }
         BOp::Observe => {}
     }
@@ -600,7 +627,7 @@ where
                 m.pushed.push(v);
                 m.clean_pushes += 1;
             }
-            rb.extend(vals.iter().map(|&v| T::mk(v)));
+            rb.extend(Hinted::new(vals.iter().map(|&v| T::mk(v)), vals.len(), *k / 2));
         }
         FOp::Observe => {}
     }
@@ -768,7 +795,8 @@ fn fixed_owned(c: &FCase, st: &mut Stats) -> CheckResult {
                     q.push_back(it.id);
                     mfirst = (mfirst + 1) % n;
                 }
-                rb.extend(items);
+                let len = items.len();
+                rb.extend(Hinted::new(items.into_iter(), len, *m / 2));
                 pushes += *m;
             }
             FOp::GetMutSet(i) | FOp::IndexMutSet(i) => {
